@@ -1,4 +1,4 @@
-//! C30 — not implemented yet.
+//! C30 — under construction.
 use vcore::Ctx;
 
 pub fn run(_ctx: &Ctx) {
